@@ -1,8 +1,12 @@
 ---------------------------- MODULE Trace_Geo ----------------------------
-(* Trace validation of recorded calls of the stateless geometric API against the
-   cell complex of HpxGeo.  One event per public call; the trace spec is total:
-   an event the specification does not allow is consumed by recording its index
-   in `bad`, so that the rest of the trace is still checked. *)
+(***************************************************************************)
+(* Trace validation of recorded calls of the stateless geometric API       *)
+(* against the cell complex (HpxGeo) and the RING numbering (HpxRing).     *)
+(* One event per public call.  The trace spec is total: an event the       *)
+(* specification does not allow is consumed by recording its index and     *)
+(* the names of the violated clauses in `bad`, so that the rest of the     *)
+(* trace is still checked and a rejection can be attributed.               *)
+(***************************************************************************)
 EXTENDS HpxRing, TLC, Json, IOUtils
 Rec == ndJsonDeserialize(IOEnv.TRACE)
 VARIABLES l, bad
@@ -10,77 +14,89 @@ tvars == <<l, bad>>
 Pow2(d) == 2^d
 ToSet(x) == IF Len(x) = 0 THEN {} ELSE {x}
 InRange(N, c) == Len(c) = 3 /\ c[1] \in 0..11 /\ c[2] \in 0..(N-1) /\ c[3] \in 0..(N-1)
-
-(* C01: the returned cell is in range and its closure contains the position *)
-HashOK(e) == LET N == Pow2(e.d) IN e.p = 0 /\ InRange(N, e.r) /\ e.r \in StarFace(N, e.f)
-(* C01: a latitude outside [-pi/2, pi/2] is rejected by a panic *)
-HashBadOK(e) == e.p = 1
-(* C02: the cells of one position at depths 0..29 form a chain of parents *)
-HierOK(e) == /\ e.p = 0
-             /\ \A k \in 1..30 : InRange(Pow2(k - 1), e.cs[k])
-             /\ \A k \in 1..29 : e.cs[k] = ParentCell(e.cs[k + 1], 2)
-(* C04: the neighbour map is the geometric adjacency, direction by direction, through all accessors *)
-NeighOK(e) == LET N == Pow2(e.d) IN
-              /\ e.p = 0
-              /\ \A w \in MainWinds : LET exp == NeighAt(N, e.c, w) IN
-                    ToSet(e.m[w]) = exp /\ ToSet(e.mc[w]) = exp /\ ToSet(e.s[w]) = exp
-              /\ e.ctr = e.c /\ e.cplain = 0 /\ e.free = 1
-NeighBadOK(e) == e.p = 1
-
-(* C14: internal / external edges through every accessor *)
 SeqSet(s) == {s[k] : k \in 1..Len(s)}
 IsSetSeq(s, S) == SeqSet(s) = S /\ Len(s) = Cardinality(S)
-EdgesOK(e) == LET N == Pow2(e.d)
-                  M == Pow2(e.dd)
-                  c == e.c
-                  sides == [o \in Ordinals |-> ExternalSide(N, c, M, o)]
-                  corners == [d \in Cardinals |-> ExternalCorner(N, c, M, d)]
-                  ext == UNION {sides[o] : o \in Ordinals} \cup UNION {corners[d] : d \in Cardinals}
-              IN /\ e.p = 0 /\ e.free = 1 /\ e.freep = 0 /\ e.ssame = 1
-                 /\ e.ie = InternalEdgeWalk(c, M)
-                 /\ IsSetSeq(e.ies, InternalEdgeSet(c, M)) /\ e.ies_inc = 1
-                 /\ IsSetSeq(e.ee, ext) /\ IsSetSeq(e.ees, ext) /\ e.ees_inc = 1
-                 /\ \A o \in Ordinals : IsSetSeq(e.side[o], sides[o]) /\ IsSetSeq(e.ipart[o], InternalSide(c, M, o))
-                 /\ \A d \in Cardinals : ToSet(e.corner[d]) = corners[d] /\ e.icorner[d] = InternalCorner(c, M, d)
-
-(* ---- RING scheme (C10, C11) ---- *)
-TolPos == 100                      \* 1e-13 rad, in units of 1e-15 rad
 CellOfFace(f) == <<f[1], f[2] \div 2, f[3] \div 2>>
-ToRingOK(e) == LET N == Pow2(e.d) IN e.p = 0 /\ e.r = ToRing(N, e.c) /\ e.back = e.c
-FromRingOK(e) == LET N == Pow2(e.d) IN e.p = 0 /\ InRange(N, e.c) /\ ToRing(N, e.c) = e.r
-RingNestedCentreOK(e) == LET N == Pow2(e.d) IN
-                         /\ e.p = 0 /\ Len(e.cf) = 3 /\ FaceKind(e.cf) = "cell"
-                         /\ ToRing(N, CellOfFace(e.cf)) = e.r /\ e.dev <= TolPos
-RingHashOK(e) == LET N == e.n IN
-                 /\ e.p = 0 /\ BigLess(e.r, NHashBig(N))
-                 /\ \E cl \in StarFace(N, e.f) : ToRing(N, cl) = e.r
-                 /\ e.same = 1 /\ e.dx \in 0..1000000 /\ e.dy \in 0..1000000
-                 /\ (e.back = -1 \/ (e.back >= 0 /\ e.back <= TolPos))
-RingCenterOK(e) == LET N == e.n IN
-                   /\ e.p = 0 /\ Len(e.cf) = 3 /\ FaceKind(e.cf) = "cell"
-                   /\ LET cl == CellOfFace(e.cf) IN
-                      /\ ToRing(N, cl) = e.r /\ e.hc = e.r
-                      /\ Len(e.vf) = 4 /\ \A k \in 1..4 : FaceKind(e.vf[k]) = "node"
-                      /\ {Canon(N, CellOfFace(e.vf[k])) : k \in 1..4} = VSet(N, cl)
-RingBadOK(e) == e.pc = 1 /\ e.pv = 1 /\ e.ps = 1 /\ e.ph = 1 /\ e.phd = 1
+(* names of the clauses (pairs <<name, holds>>) that do not hold *)
+Failed(clauses) == LET idx == {k \in 1..Len(clauses) : ~clauses[k][2]} IN {clauses[k][1] : k \in idx}
 
-Check(e) == CASE e.ev = "hash" -> HashOK(e)
-              [] e.ev = "hash_bad" -> HashBadOK(e)
-              [] e.ev = "hier" -> HierOK(e)
-              [] e.ev = "neigh" -> NeighOK(e)
-              [] e.ev = "neigh_bad" -> NeighBadOK(e)
-              [] e.ev = "edges" -> EdgesOK(e)
-              [] e.ev = "to_ring" -> ToRingOK(e)
-              [] e.ev = "from_ring" -> FromRingOK(e)
-              [] e.ev = "ring_nested_centre" -> RingNestedCentreOK(e)
-              [] e.ev = "ring_hash" -> RingHashOK(e)
-              [] e.ev = "ring_center" -> RingCenterOK(e)
-              [] e.ev = "ring_bad" -> RingBadOK(e)
-              [] OTHER -> FALSE
+(* ---- tolerances: the one place where "up to rounding" is defined ---- *)
+TolPos == 100            \* 1e-13 rad, in units of 1e-15 rad
+TolOff == 10             \* offsets dx, dy in [0,1] up to 1e-5 (units of 1e-6)
+
+(* C01: the returned cell is in range and its closure contains the position *)
+HashC(e) == LET N == Pow2(e.d) IN
+  << <<"panic", e.p = 0>>, <<"range", e.p = 1 \/ InRange(N, e.r)>>, <<"contains", e.p = 1 \/ e.r \in StarFace(N, e.f)>> >>
+(* C01: a latitude outside [-pi/2, pi/2] is rejected by a panic *)
+HashBadC(e) == << <<"nopanic", e.p = 1>> >>
+(* C02: the cells of one position at depths 0..29 form a chain of parents *)
+HierC(e) == << <<"panic", e.p = 0>>, <<"range", \A k \in 1..30 : InRange(Pow2(k - 1), e.cs[k])>>,
+               <<"prefix", \A k \in 1..29 : e.cs[k] = ParentCell(e.cs[k + 1], 2)>> >>
+(* C04: the neighbour map is the geometric adjacency, direction by direction, through all accessors *)
+NeighC(e) == LET N == Pow2(e.d) IN
+  << <<"panic", e.p = 0>>,
+     <<"map", \A w \in MainWinds : ToSet(e.m[w]) = NeighAt(N, e.c, w)>>,
+     <<"map_with_centre", \A w \in MainWinds : ToSet(e.mc[w]) = NeighAt(N, e.c, w)>>,
+     <<"single", \A w \in MainWinds : ToSet(e.s[w]) = NeighAt(N, e.c, w)>>,
+     <<"centre", e.ctr = e.c /\ e.cplain = 0>>, <<"free", e.free = 1>> >>
+NeighBadC(e) == << <<"nopanic_neighbours", e.pn = 1>>, <<"nopanic_neighbour", e.p1 = 1>> >>
+(* C14: internal / external edges through every accessor *)
+EdgesC(e) == LET N == Pow2(e.d)
+                 M == Pow2(e.dd)
+                 c == e.c
+                 sides == [o \in Ordinals |-> ExternalSide(N, c, M, o)]
+                 corners == [d \in Cardinals |-> ExternalCorner(N, c, M, d)]
+                 ext == UNION {sides[o] : o \in Ordinals} \cup UNION {corners[d] : d \in Cardinals}
+  IN << <<"panic", e.p = 0>>, <<"free", e.free = 1 /\ e.ssame = 1>>, <<"free_panic", e.freep = 0>>,
+        <<"internal_walk", e.ie = InternalEdgeWalk(c, M)>>,
+        <<"internal_sorted", IsSetSeq(e.ies, InternalEdgeSet(c, M)) /\ e.ies_inc = 1>>,
+        <<"external", IsSetSeq(e.ee, ext)>>, <<"external_sorted", IsSetSeq(e.ees, ext) /\ e.ees_inc = 1>>,
+        <<"sides", \A o \in Ordinals : IsSetSeq(e.side[o], sides[o])>>,
+        <<"corners", \A d \in Cardinals : ToSet(e.corner[d]) = corners[d]>>,
+        <<"internal_corner", \A d \in Cardinals : e.icorner[d] = InternalCorner(c, M, d)>>,
+        <<"internal_part", \A o \in Ordinals : IsSetSeq(e.ipart[o], InternalSide(c, M, o))>> >>
+(* ---- RING scheme (C10, C11) ---- *)
+ToRingC(e) == LET N == Pow2(e.d) IN
+  << <<"panic", e.p = 0>>, <<"rank", e.r = ToRing(N, e.c)>>, <<"roundtrip", e.back = e.c>> >>
+FromRingC(e) == LET N == Pow2(e.d) IN
+  << <<"panic", e.p = 0>>, <<"range", InRange(N, e.c)>>, <<"inverse", InRange(N, e.c) /\ ToRing(N, e.c) = e.r>> >>
+RingNestedCentreC(e) == LET N == Pow2(e.d) IN
+  << <<"panic", e.p = 0>>,
+     <<"ring_centre_in_cell", Len(e.cf) = 3 /\ FaceKind(e.cf) = "cell" /\ ToRing(N, CellOfFace(e.cf)) = e.r>>,
+     <<"same_centre", e.dev <= TolPos>> >>
+RingHashC(e) == LET N == e.n IN
+  << <<"panic", e.p = 0>>, <<"range", e.p = 1 \/ BigLess(e.r, NHashBig(N))>>,
+     <<"contains", e.p = 1 \/ \E cl \in StarFace(N, e.f) : ToRing(N, cl) = e.r>>,
+     <<"same_cell_dxdy", e.same = 1>>,
+     <<"offsets", e.dx \in (-TolOff)..(1000000 + TolOff) /\ e.dy \in (-TolOff)..(1000000 + TolOff)>>,
+     <<"sph_coo_inverts", e.back = -1 \/ (e.back >= 0 /\ e.back <= TolPos)>> >>
+RingCenterC(e) == LET N == e.n
+                      okf == Len(e.cf) = 3 /\ FaceKind(e.cf) = "cell"
+                      cl == CellOfFace(e.cf)
+  IN << <<"panic", e.p = 0>>, <<"centre_in_cell", okf /\ ToRing(N, cl) = e.r>>, <<"hash_of_centre", e.hc = e.r>>,
+        <<"vertices", okf /\ Len(e.vf) = 4 /\ (\A k \in 1..4 : FaceKind(e.vf[k]) = "node")
+                      /\ {Canon(N, CellOfFace(e.vf[k])) : k \in 1..4} = VSet(N, cl)>> >>
+RingBadC(e) == << <<"nopanic_center", e.pc = 1>>, <<"nopanic_vertices", e.pv = 1>>, <<"nopanic_sph_coo", e.ps = 1>>,
+                  <<"nopanic_hash", e.ph = 1>>, <<"nopanic_hash_dxdy", e.phd = 1>> >>
+
+Clauses(e) == CASE e.ev = "hash" -> HashC(e)
+                [] e.ev = "hash_bad" -> HashBadC(e)
+                [] e.ev = "hier" -> HierC(e)
+                [] e.ev = "neigh" -> NeighC(e)
+                [] e.ev = "neigh_bad" -> NeighBadC(e)
+                [] e.ev = "edges" -> EdgesC(e)
+                [] e.ev = "to_ring" -> ToRingC(e)
+                [] e.ev = "from_ring" -> FromRingC(e)
+                [] e.ev = "ring_nested_centre" -> RingNestedCentreC(e)
+                [] e.ev = "ring_hash" -> RingHashC(e)
+                [] e.ev = "ring_center" -> RingCenterC(e)
+                [] e.ev = "ring_bad" -> RingBadC(e)
+                [] OTHER -> << <<"unknown_event", FALSE>> >>
 
 Init == l = 1 /\ bad = <<>>
 Step == /\ l <= Len(Rec)
-        /\ bad' = IF Check(Rec[l]) THEN bad ELSE Append(bad, l)
+        /\ LET why == Failed(Clauses(Rec[l])) IN
+           bad' = IF why = {} THEN bad ELSE Append(bad, [i |-> l, why |-> why])
         /\ l' = l + 1
 Spec == Init /\ [][Step]_tvars
 Done == l = Len(Rec) + 1 => JsonSerialize(IOEnv.VERDICT, [n |-> Len(Rec), bad |-> bad])
